@@ -7,6 +7,7 @@
 From Coq Require Import QArith List ZArith.
 Import ListNotations.
 Require Import Plinio.Base.Qx Plinio.Model.SuperNet Plinio.Proofs.SuperNet.
+Require Import Plinio.Gen.SnExportGen Plinio.Proofs.SnExportGraphGen Plinio.Proofs.SnExportGen.
 
 (* hard (one-hot) selection: SuperNet.forward computes, on every input, what the exported network computes *)
 Theorem C03_sn_hard_eq_export : forall (apply : layer -> tensor -> tensor),
@@ -129,6 +130,108 @@ Example C03_g_example :
   g_eval apply bin qmix (fun _ => one_hot 1 2) g (fun _ => 1) 0%nat == 939.
 Proof. cbn zeta. split; [reflexivity|vm_compute; reflexivity]. Qed.
 
+(* ---- second tie, by translation: the definitions of Gen/SnExportGen.v are GENERATED on every run by translator/snexport2coq.py from the
+   source of SuperNetCombiner.forward / summary, SuperNetModule.forward, export_graph, SuperNet.export / summary of the tree under test
+   (best_layer_index and the samplers behind self.sample_alpha(): Gen/SnCostGen.v, Gen/SamplerGen.v, generated by the C06 / C10
+   translators).  The statements below are about that code as it is now.
+   A combiner state `s0 b` is a sampler of Model/Sampler.v; hard selection without noise (`g_hard_det`): hard_softmax set, eval mode or
+   the plain soft-max sampler, tie-free alpha with one entry per branch, positive temperature.  `g` is exp: any positive increasing function. *)
+
+(* the generated forward pass (sample, theta-weighted sum of the branch outputs, block after block with the combiner states threaded
+   through) under hard selection computes, on every input, the hand model's network with the one-hots of the generated best_layer_index *)
+Theorem C03_generated_forward_hard_eq_model : forall (g : Q -> Q), (forall x, 0 < g x) -> (forall x y, x < y -> g x < g y) ->
+  forall (apply : layer -> tensor -> tensor) (bin : Z -> tensor -> tensor -> tensor),
+  (forall l x y, teq x y -> teq (apply l x) (apply l y)) ->
+  (forall op x y x' y', teq x x' -> teq y y' -> teq (bin op x y) (bin op x' y')) ->
+  forall noise s0 gn x, g_hard_det s0 gn ->
+  teq (snd (seed_forward_gen apply bin qscale qstack_sum g noise (fun b => SG.embed (s0 b)) gn x))
+      (g_eval apply bin qmix (th_hard s0) gn x).
+Proof. exact gen_forward_hard_eq_model. Qed.
+
+(* ... hence what the hand model's exported network computes (winners = the generated best_layer_index of every block) *)
+Theorem C03_generated_forward_hard_eq_export : forall (g : Q -> Q), (forall x, 0 < g x) -> (forall x y, x < y -> g x < g y) ->
+  forall (apply : layer -> tensor -> tensor) (bin : Z -> tensor -> tensor -> tensor),
+  (forall l x y, teq x y -> teq (apply l x) (apply l y)) ->
+  (forall op x y x' y', teq x x' -> teq y y' -> teq (bin op x y) (bin op x' y')) ->
+  forall noise s0 gn x e th', g_hard_det s0 gn -> g_export (win_of s0) gn = Some e ->
+  teq (snd (seed_forward_gen apply bin qscale qstack_sum g noise (fun b => SG.embed (s0 b)) gn x)) (g_eval apply bin qmix th' e x).
+Proof. exact gen_forward_hard_eq_export. Qed.
+
+(* one block: the generated SuperNetModule.forward evaluates the branch at the generated best_layer_index *)
+Theorem C03_generated_block_forward_is_winner : forall (g : Q -> Q), (forall x, 0 < g x) -> (forall x y, x < y -> g x < g y) ->
+  forall (apply : layer -> tensor -> tensor) (bin : Z -> tensor -> tensor -> tensor),
+  (forall l x y, teq x y -> teq (apply l x) (apply l y)) ->
+  (forall op x y x' y', teq x x' -> teq y y' -> teq (bin op x y) (bin op x' y')) ->
+  forall s0 gn b brs nz x e, g_hard_det s0 gn -> In (GChoice b brs) gn -> nth_error brs (win_of s0 b) = Some e ->
+  teq (snd (snm_forward_gen apply bin qscale qstack_sum g (mkSnm b brs) (SG.embed (s0 b)) nz x)) (eval_body apply bin e x).
+Proof. exact gen_block_forward_hard_is_winner. Qed.
+
+(* whatever the coefficients: the value of the generated combiner forward is the hand model's qmix of the coefficients the generated
+   sampler leaves; no IndexError / empty stack when there is one coefficient per branch *)
+Theorem C03_generated_combiner_forward_is_qmix : forall g apply bin self noise ys,
+  fst (comb_forward_gen apply bin qscale qstack_sum g self noise ys) = SG.comb_forward_gen g self noise /\
+  teq (snd (comb_forward_gen apply bin qscale qstack_sum g self noise ys)) (qmix (theta1 (SG.comb_forward_gen g self noise)) ys).
+Proof. exact comb_forward_gen_value. Qed.
+
+Theorem C03_generated_combiner_forward_defined : forall g apply bin self noise (ys : list tensor), ys <> [] ->
+  length ys = length (theta1 (SG.comb_forward_gen g self noise)) -> comb_forward_ok apply bin qscale qstack_sum g self noise ys = true.
+Proof. exact comb_forward_ok_true. Qed.
+
+(* the generated summary(): the largest reported coefficient is at the generated best_layer_index (the branch export keeps); with hard
+   selection the report is its one-hot *)
+Theorem C03_generated_summary_names_winner : forall (g : Q -> Q), (forall x, 0 < g x) -> (forall x y, x < y -> g x < g y) ->
+  forall sb a, SP.wf sb -> S.alpha sb = [a] ->
+  let rep := map snd (comb_summary_gen g (SG.embed sb) (length a)) in
+  argmax rep = CG.comb_best_layer_index_gen a /\ (S.hard sb = true -> rep = one_hot (CG.comb_best_layer_index_gen a) (length a)).
+Proof. exact gen_summary_names_winner. Qed.
+
+(* the generated SuperNet.summary(): every entry is the report of a combiner among the unique leaf modules, under its name *)
+Theorem C03_generated_summary_entries : forall g st self nm v, In (nm, v) (sn_summary_gen g st self) ->
+  exists nd c, In (nm, nd, CG.LComb c) (CG.sn_ulm self) /\ v = comb_summary_gen g (st (CG.c_bid c)) (CG.c_nbr c).
+Proof. exact gen_sn_summary_entries. Qed.
+
+(* the generated export_graph / convert / SuperNet.export, run on the traced graph of ANY network of the IR (a model of torch.fx: users
+   computed from the arguments, erase_node refusing a node that still has users, eliminate_dead_code as torch's reverse sweep): when every
+   generated best_layer_index designates a branch it does not raise and leaves exactly the graph of the fixed layers and the winners' bodies *)
+Theorem C03_generated_export_traced : forall alphas g,
+  let win := fun b => CG.comb_best_layer_index_gen (alphas b) in
+  g_winners_ok win g -> export_traced_gen alphas g = Some (fx_delete_unused (trace_with (MExp win) alphas g)).
+Proof. exact gen_export_traced. Qed.
+
+(* ... whose layer nodes are, in order, the leaf layers of the hand model's exported network (every fixed layer untouched, in place of
+   every block exactly the layers of the arg-max branch), with no combiner left, and whose module tree keeps exactly the modules still called *)
+Theorem C03_generated_export_structure : forall alphas g e,
+  let win := fun b => CG.comb_best_layer_index_gen (alphas b) in
+  g_export win g = Some e ->
+  exists s, export_traced_gen alphas g = Some s /\
+    graph_layers s = fixed_layers (g_flatten e) /\ graph_combs s = [] /\
+    (forall i, In i (g_modtree s) <-> In i (g_mods g) /\ In (Mod i) (fixed_layers (g_flatten e))).
+Proof. exact gen_export_structure. Qed.
+
+(* ... and which computes, for EVERY interpretation of the layers, the binary ops and the combiner, what the hand model's exported network
+   computes (the traced graph computing what the hand model's SuperNet computes) *)
+Theorem C03_generated_export_semantics : forall (T : Type) (apply : layer -> T -> T) (bin : Z -> T -> T -> T) (mix : list Q -> list T -> T)
+  theta th' alphas g e x,
+  let win := fun b => CG.comb_best_layer_index_gen (alphas b) in
+  g_export win g = Some e ->
+  exists s, export_traced_gen alphas g = Some s /\
+            fx_eval apply bin mix theta s x = g_eval apply bin mix th' e x /\
+            fx_eval apply bin mix theta (trace alphas g) x = g_eval apply bin mix theta g x.
+Proof. exact gen_export_semantics. Qed.
+
+(* the sentence of the property about the generated code: under hard selection export() succeeds and the network it returns computes on
+   every input what the SuperNet's forward pass computes; it consists of the fixed layers and the arg-max branches, no combiner is left *)
+Theorem C03_generated_export_eq_hard_forward : forall (g : Q -> Q), (forall x, 0 < g x) -> (forall x y, x < y -> g x < g y) ->
+  forall (apply : layer -> tensor -> tensor) (bin : Z -> tensor -> tensor -> tensor),
+  (forall l x y, teq x y -> teq (apply l x) (apply l y)) ->
+  (forall op x y x' y', teq x x' -> teq y y' -> teq (bin op x y) (bin op x' y')) ->
+  forall noise s0 gn x th, g_hard_det s0 gn ->
+  exists s e, export_traced_gen (alpha_of s0) gn = Some s /\ g_export (win_of s0) gn = Some e /\
+    teq (snd (seed_forward_gen apply bin qscale qstack_sum g noise (fun b => SG.embed (s0 b)) gn x)) (fx_eval apply bin qmix th s x) /\
+    graph_layers s = fixed_layers (g_flatten e) /\ graph_combs s = [].
+Proof. exact gen_export_eq_hard_forward. Qed.
+
+
 Print Assumptions C03_sn_hard_eq_export.
 Print Assumptions C03_sn_hard_eq_export_argmax.
 Print Assumptions C03_sn_export_succeeds_iff.
@@ -147,3 +250,14 @@ Print Assumptions C03_g_export_deterministic.
 Print Assumptions C03_g_flatten_export.
 Print Assumptions C03_g_eval_embed.
 Print Assumptions C03_g_flatten_embed.
+Print Assumptions C03_generated_forward_hard_eq_model.
+Print Assumptions C03_generated_forward_hard_eq_export.
+Print Assumptions C03_generated_block_forward_is_winner.
+Print Assumptions C03_generated_combiner_forward_is_qmix.
+Print Assumptions C03_generated_combiner_forward_defined.
+Print Assumptions C03_generated_summary_names_winner.
+Print Assumptions C03_generated_summary_entries.
+Print Assumptions C03_generated_export_traced.
+Print Assumptions C03_generated_export_structure.
+Print Assumptions C03_generated_export_semantics.
+Print Assumptions C03_generated_export_eq_hard_forward.
